@@ -370,6 +370,8 @@ def _c14(tier, seed):
         # M-DESC / M-ERRNO are always on: feed them a schedule-fuzzer and a rejection workload as well
         {"engine": "mix", "args": [], "cases": 6000 if tier == "quick" else 150000, "shards": N, "timeout": 3000},
         {"engine": "ring", "args": [], "cases": 1500 if tier == "quick" else 60000, "shards": N, "timeout": 3000},
+        # SGL jobs (init/update/complete descriptors carry caller-owned context pointers in the union)
+        {"engine": "sgl", "args": [], "cases": 1500 if tier == "quick" else 60000, "shards": N, "timeout": 3000},
         # error.c / validation / burst code under ASan+UBSan
         {"engine": "desc", "args": [], "cases": 1, "shards": 4, "flavour": "asan", "timeout": 3000,
          "env": {"ASAN_OPTIONS": "detect_leaks=0:handle_segv=0:allow_user_segv_handler=1:abort_on_error=1",
